@@ -932,3 +932,50 @@ func ruleC03Having(c *Ctx) {
 	}
 	c.Check(len(why) == 0, "c03.having", key, c.P.Pos(f.Pos()), fmt.Sprintf("true=>group emitted once (%d paths), false=>not (%d paths)", nT, nF), strings.Join(uniq(why), "; "))
 }
+
+func init() { register("C03", ruleC03OneRowOnlyUngrouped) }
+
+// ruleC03OneRowOnlyUngrouped: the single-row (whole-table) branch is taken only without GROUP BY.
+func ruleC03OneRowOnlyUngrouped(c *Ctx) {
+	c.Doc("c03.one-row-only-ungrouped", "projection stage (ExecSelect): the branch that answers with ONE row computed over all rows (the projection called on a fresh {\"*\": rows} map) is dominated by the test len(query.groupDefinition) == 0 — with GROUP BY an all-aggregate select list still yields one row per group through the per-row branch")
+	proj := c.P.Func(modPath, "SelectExpr")
+	es := c.P.Func(modPath, "ExecSelect")
+	if proj == nil || es == nil {
+		c.Unknown("c03.one-row-only-ungrouped", "ExecSelect", "-", "anchor lost")
+		return
+	}
+	n := 0
+	allInstrs(es, func(b *ssa.BasicBlock, in ssa.Instruction) {
+		call, ok := in.(*ssa.Call)
+		if !ok || call.Common().StaticCallee() != proj || len(call.Call.Args) < 2 {
+			return
+		}
+		if _, fresh := call.Call.Args[1].(*ssa.MakeMap); !fresh {
+			return
+		}
+		n++
+		guarded := false
+		for _, fc := range relFacts(factsAt(b)) {
+			k, isK := constIntOf(fc.y)
+			if !isK || k != 0 || !(fc.r == relEQ || fc.r == relLE) {
+				continue
+			}
+			lc, isCall := fc.x.(*ssa.Call)
+			if !isCall {
+				continue
+			}
+			if bi, isB := lc.Call.Value.(*ssa.Builtin); !isB || bi.Name() != "len" {
+				continue
+			}
+			if ld, isLd := lc.Call.Args[0].(*ssa.UnOp); isLd {
+				if fa, isFa := ld.X.(*ssa.FieldAddr); isFa && fieldName(fa.X.Type(), fa.Field) == "groupDefinition" {
+					guarded = true
+				}
+			}
+		}
+		c.Check(guarded, "c03.one-row-only-ungrouped", fmt.Sprintf("ExecSelect/whole-table-branch#%d", n), c.P.Pos(call.Pos()), "dominated by len(query.groupDefinition) == 0", "the one-row whole-table branch is not guarded by the absence of GROUP BY: an all-aggregate select list with GROUP BY yields a single row over the groups instead of one row per group")
+	})
+	if n == 0 {
+		c.Unknown("c03.one-row-only-ungrouped", "ExecSelect", c.P.Pos(es.Pos()), "anchor lost: no whole-table projection call")
+	}
+}
